@@ -571,6 +571,9 @@ func (x *Exec) applyContract(fr *Frame, st *State, spec *FuncSpec, key string, n
 		x.em.assume(implies(st.Reach, p))
 		x.assumedClauses[key+" ["+c.Label+"]: "+c.Src] = true
 	}
+	if fr.isTop {
+		x.sitePost[fmt.Sprintf("%s@%d", key, occ)] = st.clone()
+	}
 	return res
 }
 
